@@ -71,13 +71,13 @@ class AFMWriter(ModelToText):
         children = relation.children
         result = ""
 
-        if len(children) == 1:
-            child = children[0]
-            if relation.card_min == 1 and relation.card_max == 1:
-                result = child.name
-            if relation.card_min == 0 and relation.card_max == 1:
-                result = "[" + child.name + "]"
+        cardinality = (relation.card_min, relation.card_max)
+        if len(children) == 1 and cardinality == (1, 1):
+            result = children[0].name
+        elif len(children) == 1 and cardinality == (0, 1):
+            result = "[" + children[0].name + "]"
         else:
+            # also a single child under any other cardinality: it used to be left out altogether
             result = "[" + str(relation.card_min) + "," + \
                 str(relation.card_max) + "]"
             features = []
